@@ -766,6 +766,21 @@ def apply_rewrites(text, rewrites):
             recv_ = text[toks_[st_].start:toks_[k_ - 1].start]
             inner_ = text[toks_[a_ + 4].end:toks_[bc_].start]
             text = text[:toks_[st_].start] + "{ let mut " + toks_[a_ + 2].text + " = " + recv_.strip() + ";" + inner_ + "}" + text[toks_[cp_].end:]
+        elif rw[0] == "DROPTIMER":   # R20: `let _timer = STAT_X.timer_secs("..");` (a metrics guard; no effect on the value computed) is dropped
+            toks_ = tokenize(text)
+            ed_ = Edit(text)
+            n_ = 0
+            for k_, t_ in enumerate(toks_):
+                if t_.text == "let" and toks_[k_ + 1].text == "_timer" and toks_[k_ + 2].text == "=" and toks_[k_ + 3].text.startswith("STAT_"):
+                    j_ = k_
+                    while toks_[j_].text != ";":
+                        j_ = match_close(toks_, j_) if toks_[j_].text in OPEN else j_
+                        j_ += 1
+                    ed_.delete(t_.start, toks_[j_].end)
+                    n_ += 1
+            if n_ == 0:
+                raise Undecided("R20: no `let _timer = STAT_..;`")
+            text = ed_.apply()
         elif rw[0] == "ROOT":
             text = rewrite_ROOT(text, rw[1], rw[2], rw[3], rw[4] if len(rw) > 4 else True)
         elif rw[0] == "ANF":
